@@ -71,7 +71,7 @@ func (e *cbEnv) snapshot() string {
 	for _, c := range e.maps {
 		parts = append(parts, hx.DumpTree(e.ps, atree.VerifMapRoot(c.m)))
 	}
-	parts = append(parts, hx.DumpTree(e.ps, atree.VerifArrayRoot(e.arr)), deltaKeys(e.ps))
+	parts = append(parts, hx.DumpTree(e.ps, atree.VerifArrayRoot(e.arr)), deltaKeys(e.ps), e.counts())
 	return strings.Join(parts, "\n")
 }
 
@@ -118,13 +118,13 @@ func callbackFailStream(cfg *Config) *hx.Stats {
 		nProg = 1
 	}
 	distinct := map[string]bool{}
-	for p := 0; p < nProg && len(st.Violations) <= 20 && st.HarnessErr == ""; p++ {
+	for p := 0; p < nProg && unsignedViolations(st) <= 20 && st.HarnessErr == ""; p++ {
 		e := &cbEnv{st: st, cfg: cfg, rng: rng, p: p, T: []uint32{256, 512, 1024}[p%3], distinct: distinct}
 		if !e.setup() {
 			break
 		}
 		st.Programs++
-		for trial := 0; trial < 260 && len(st.Violations) <= 20 && st.HarnessErr == ""; trial++ {
+		for trial := 0; trial < 260 && unsignedViolations(st) <= 20 && st.HarnessErr == ""; trial++ {
 			e.trial(trial)
 			if e.poisoned {
 				// a half-applied change was left behind (observation): continue on fresh containers
@@ -140,10 +140,12 @@ func callbackFailStream(cfg *Config) *hx.Stats {
 		e.undefinedIDs()
 		e.limitProbe()
 		e.partialChangeProbe()
+		e.extended() // FX13: rejectext.go, rejectstore.go, rejectopen.go, rejectdigest.go
 	}
-	if st.HarnessErr == "" && len(st.Violations) == 0 {
+	if st.HarnessErr == "" && unsignedViolations(st) == 0 {
 		var missing []string
-		for _, t := range callbackRequired {
+		required := append(append(append(append(append([]string{}, callbackRequired...), callbackRequiredExt...), callbackRequiredStore...), callbackRequiredOpen...), callbackRequiredDigest...)
+		for _, t := range required {
 			if st.Dist[t] == 0 {
 				missing = append(missing, t)
 			}
